@@ -224,18 +224,56 @@ func c10r1(c *core.Ctx) {
 	}
 }
 
-// assertion panics that may follow an effect (DESIGN.md §4, false alarms anticipated).
-// Key: function containing the panic; value: the function through which the panic must be reached ("*" = anywhere) and the reason.
-var c10r3Assertions = map[string][2]string{
-	"entityPool.Recycle":             {"*", "reserved entries carry generation MaxUint32, which no handle that passed the liveness test has"},
-	"lock.Unlock":                    {"*", "token comes from the paired acquire (C07/R3)"},
-	"lock.UnlockSafe":                {"*", "token comes from the paired acquire (C07/R3)"},
-	"bitPool.getNew":                 {"*", "64 simultaneous locks exhausted: a resource limit, not a precondition of the call"},
-	"storage.createTable":            {"storage.cleanupArchetypes", "target cleanup after removal: relations are the freed table's own complete relation list with the dead target replaced by the zero entity"},
-	"archetype.getTableSlowPath":     {"storage.cleanupArchetypes", "target cleanup after removal: relation list is complete by construction"},
-	"table.MatchesExact":             {"storage.cleanupArchetypes", "target cleanup after removal: relation list is complete and holds relation components only"},
-	"storage.checkRelationTarget":    {"storage.cleanupArchetypes", "target cleanup after a single removal: the only dead entity is the removed target, already replaced by the zero entity"},
-	"storage.checkRelationComponent": {"storage.cleanupArchetypes", "target cleanup after removal: components come from the table's relation columns"},
+// assertionExempt classifies a panic that is reachable after an effect as an internal assertion (DESIGN.md §4):
+// by the role of the function containing it or of a function on the path to it, never by name.
+func assertionExempt(c *core.Ctx, a *Anchors, observer *core.Func, chain []string, deepFn *core.Func) string {
+	m := c.M
+	if deepFn != nil {
+		if a.PoolRecycle[deepFn] {
+			return "pool-recycle role: reserved entries carry generation MaxUint32, which no handle that passed the liveness test has"
+		}
+		if a.Release[deepFn] {
+			return "release role: the token comes from the paired acquire (C07/R3)"
+		}
+		// functions reached from the acquire role (bit pool exhausted): a resource limit, not a precondition of the call
+		for acq := range a.Acquire {
+			if acq.Recv == "lock" && reaches(m, acq, deepFn, 3) {
+				return "reached from the acquire role: 64 simultaneous locks exhausted is a resource limit, not a precondition"
+			}
+		}
+	}
+	cleanup := cleanupRole(c)
+	through := cleanup[observer]
+	for _, ch := range chain {
+		for f := range cleanup {
+			if f.Name == ch {
+				through = true
+			}
+		}
+	}
+	if through {
+		return "reached through the target cleanup: its relation lists are the freed table's own complete relations (rule C04/R8 keeps target validation out of it)"
+	}
+	return ""
+}
+
+func reaches(m *core.Model, from, to *core.Func, depth int) bool {
+	if from == to {
+		return true
+	}
+	if depth == 0 {
+		return false
+	}
+	found := false
+	core.InspectNoLits(from.Body, func(n ast.Node) bool {
+		if call, ok := n.(*ast.CallExpr); ok && !found {
+			if k, cal, _ := m.Callee(call); k == core.CallStatic && reaches(m, cal, to, depth-1) {
+				found = true
+			}
+		}
+		return !found
+	})
+	return found
 }
 
 func c10r3(c *core.Ctx) {
@@ -271,7 +309,6 @@ func c10r3(c *core.Ctx) {
 			}
 		}
 	}
-	_ = a
 	spec := core.OrderSpec{
 		IsA: func(f *core.Func, n ast.Node) string {
 			switch n.(type) {
@@ -311,17 +348,16 @@ func c10r3(c *core.Ctx) {
 			deep = v.B.Chain[len(v.B.Chain)-1]
 		}
 		key := v.Func.Name + " -> " + deep
-		if ex, ok := c10r3Assertions[deep]; ok {
-			through := ex[0] == "*" || v.Func.Name == ex[0]
-			for _, ch := range v.B.Chain {
-				if ch == ex[0] {
-					through = true
-				}
+		var deepFn *core.Func
+		if n := m.EnclosingFunc(v.B.Deep.Pos()); n != nil {
+			deepFn = n
+			for deepFn.Lit != nil && deepFn.Parent != nil {
+				deepFn = deepFn.Parent
 			}
-			if through {
-				c.Info("C10/R3", key, c.At(v.B.Node.Pos()), "assertion exemption: "+ex[1])
-				continue
-			}
+		}
+		if why := assertionExempt(c, a, v.Func, v.B.Chain, deepFn); why != "" {
+			c.Info("C10/R3", key, c.At(v.B.Node.Pos()), "assertion exemption: "+why)
+			continue
 		}
 		bad[v.Func] = true
 		c.Violation("C10/R3", key, c.At(v.B.Node.Pos()),
